@@ -320,6 +320,41 @@ class C18(Check):
                         out.fail("C18.eqhash", "types with bit length sets %s and %s compare equal but hash differently" % (sorted(sa), sorted(sb)), "hash:lookalike")
             except NodeError:
                 pass
+            # (2d) a bit length set against the same numbers held in a plain container (what `bls == {8, 16}` in a client's
+            # assertion does), and against a set built from such a container: equal sets are never reported different
+            from ..worlds import realcanon
+            def plain_forms(vals):
+                vs = sorted(vals)
+                forms = [("set", set(vs)), ("frozenset", frozenset(vs)), ("list", list(vs)), ("tuple", tuple(reversed(vs)))]
+                if len(vs) >= 2 and len({b0 - a0 for a0, b0 in zip(vs, vs[1:])}) == 1:
+                    st = vs[1] - vs[0]
+                    forms += [("range", range(vs[0], vs[-1] + 1, st)), ("range-exact-stop", range(vs[0], vs[-1] + st, st)), ("range-ragged-stop", range(vs[0], vs[-1] + 1 + (st - 1) // 2, st))]
+                return forms
+            cands = []
+            for k, o in oa:
+                if isinstance(o, pydsdl.BitLengthSet):
+                    ex = realcanon.safe_expand(o)
+                    if ex is not None and 1 <= len(ex) <= 300:
+                        cands.append((k, o, ex))
+            pk = scn["pick_seed"]
+            cands = cands[:12] + [("progression", pydsdl.BitLengthSet({a0 + st * i for i in range(cnt)}), {a0 + st * i for i in range(cnt)})
+                                  for a0, st, cnt in ((pk % 9, 2 + pk % 7, 2 + pk % 5), (8 * (pk % 4), 8, 3 + pk % 6), (pk % 3, 3, 2), (0, 1 + pk % 4, 4))]
+            for k, b0, ex in cands:
+                for fname, form in plain_forms(ex):
+                    try:
+                        built = pydsdl.BitLengthSet(form)
+                        verdicts = [("set == %s" % fname, b0 == form), ("set == BitLengthSet(%s)" % fname, b0 == built), ("BitLengthSet(%s) == set" % fname, built == b0),
+                                    ("members of BitLengthSet(%s)" % fname, set(built) == ex), ("hash", hash(built) == hash(b0))]
+                    except Exception as ex0:
+                        from .base import raised_inside_sut
+                        if not raised_inside_sut(ex0):
+                            raise
+                        out.fail("C18.bls-eq", "%s: comparing / building with a %s of the same numbers raised %s: %s" % (k, fname, type(ex0).__name__, ex0), "bls-plain-raised:" + fname)
+                        continue
+                    out.stats["bls_vs_plain_container"] += 1
+                    for what, okv in verdicts:
+                        if not okv:
+                            out.fail("C18.bls-eq", "%s: bit length set %s against the same numbers as a %s: '%s' is false" % (k, sorted(ex)[:8], fname, what), "bls-plain:" + fname.split("-")[0])
             # (2c) every pair of primitive / void types that occur anywhere (incl. the implicit length and tag fields): equal iff
             # same class and same string form
             prims = []
